@@ -1,3 +1,4 @@
+mod c13;
 mod check;
 mod corpus;
 mod e1;
@@ -7,6 +8,7 @@ mod proj;
 mod gen;
 mod names;
 mod render;
+mod surface;
 
 use proptest::strategy::{Strategy, ValueTree};
 use proptest::test_runner::{Config, RngAlgorithm, TestRng, TestRunner};
